@@ -82,8 +82,11 @@ Definition C20_source_stmt : Prop :=
      @src_check_sdp ROps eps w tol_arg =
      @check_sdp ROps w (match tol_arg with None => @default_tol ROps eps w | Some x => x end)) /\
   (forall m : Rv, @src_cfm_diag ROps m = @cfm_diag ROps m) /\
-  (forall (w : Rv) (V : Rm), @src_cfm_eigen ROps w V = @cfm_eigen ROps w V).
+  (forall (w : Rv) (V : Rm), @src_cfm_eigen ROps w V = @cfm_eigen ROps w V) /\
+  (* _auto_select_init as translated (its guard chain over integers) is the rule of the statement above *)
+  (forall (hc : bool) (d n nc : nat) (ncls : Z),
+     src_auto_select_init hc (Z.of_nat d) (Z.of_nat n) (Z.of_nat nc) ncls = auto_select_init hc d n nc ncls).
 
 Theorem C20_source : C20_source_stmt.
-Proof. exact (conj src_check_sdp_eq (conj src_cfm_diag_eq src_cfm_eigen_eq)). Qed.
+Proof. exact (conj src_check_sdp_eq (conj src_cfm_diag_eq (conj src_cfm_eigen_eq src_auto_select_init_eq))). Qed.
 Print Assumptions C20_source.
